@@ -18,7 +18,7 @@
    Faithful to graph_run.go AFTER the four repairs recorded in known_findings.json
    (F-C06 initial task set tested for interrupt-before; F-C05 nested checkpoint handed
    to restored tasks only; F-C05c eager: tasks already created stay pending). The
-   pre-repair behaviours are kept as [start_v0], [mk_task_v0], [estep_v0] for the
+   pre-repair behaviours are kept as [start_v0], [resume_v0], [estep_v0] for the
    *_refuted witnesses.
 
    Definitions only (no proofs here): must keep evaluating for the correspondence
@@ -156,38 +156,42 @@ Section Loop.
   Definition is_nil {A} (l : list A) : bool := match l with [] => true | _ => false end.
 
   (* ---------- one iteration of the loop, batch mode ---------- *)
-  Definition step (s : lstate) (env : ENV) : sres * list event * ENV :=
-    let '(ts, gs1) := run_pres (ls_next s) (ls_gs s) in
-    let '(rs, env1) := exec_all ts env in
-    let evs := events_of ts rs in
+  (* what the loop does with the collected results [rs] of the step's tasks *)
+  Definition decide (cs : CS) (gs1 : GS) (rs : list (N * texec)) : sres :=
     match first_fail rs with
-    | Some e => (Failed e, evs, env1)
+    | Some e => Failed e
     | None =>
       if negb (is_nil (subcps rs) && is_nil (reruns rs)) then
-        (rerun_interrupt (ls_cs s) gs1 rs (outs rs) [] [] (afters rs), evs, env1)
-      else if is_nil rs then (Failed eNoTasks, evs, env1)
+        rerun_interrupt cs gs1 rs (outs rs) [] [] (afters rs)
+      else if is_nil rs then Failed eNoTasks
       else
-        match calc (ls_cs s) (outs rs) with
+        match calc cs (outs rs) with
         | Ok (cs2, ready) =>
           match nlist_get kEnd ready with
-          | Some v => (Done v, evs, env1)
+          | Some v => Done v
           | None =>
             if is_nil (hits ready) && is_nil (afters rs) then
-              (Continue {| ls_cs := cs2; ls_next := map mk_task ready; ls_gs := gs1 |}, evs, env1)
+              Continue {| ls_cs := cs2; ls_next := map mk_task ready; ls_gs := gs1 |}
             else
               (* waitAll returns nothing in batch mode; calculateNextTasks on nothing *)
               match calc cs2 [] with
               | Ok (cs4, ready2) =>
                 match nlist_get kEnd ready2 with
-                | Some v => (Done v, evs, env1)
-                | None => (plain_interrupt cs4 gs1 (ready ++ ready2) (hits ready ++ hits ready2) (afters rs), evs, env1)
+                | Some v => Done v
+                | None => plain_interrupt cs4 gs1 (ready ++ ready2) (hits ready ++ hits ready2) (afters rs)
                 end
-              | r => (Failed (chan_err r), evs, env1)
+              | r => Failed (chan_err r)
               end
           end
-        | r => (Failed (chan_err r), evs, env1)
+        | r => Failed (chan_err r)
         end
     end.
+
+  (* submit (pre-handlers, then the bodies), wait for all, decide *)
+  Definition step (s : lstate) (env : ENV) : sres * list event * ENV :=
+    let '(ts, gs1) := run_pres (ls_next s) (ls_gs s) in
+    let '(rs, env1) := exec_all ts env in
+    (decide (ls_cs s) gs1 rs, events_of ts rs, env1).
 
   (* ---------- outcome of a run segment (one Invoke/Stream call) ---------- *)
   Inductive outcome :=
@@ -229,32 +233,61 @@ Section Loop.
   Definition resume (fuel : nat) (sm : GS -> GS) (c : checkpoint) (env : ENV) : outcome * list event * ENV :=
     let s := restore c in iterate fuel (with_gs s (sm (ls_gs s))) env [].
 
-  (* ---------- a fresh segment: the initial task set is computed from START ---------- *)
-  Definition start (fuel : nat) (cs0 : CS) (gs0 : GS) (x : V) (env : ENV) : outcome * list event * ENV :=
-    match calc cs0 [(kStart, x)] with
-    | Ok (cs1, ready) =>
-      match nlist_get kEnd ready with
-      | Some v => (ODone v, [], env)
-      | None =>
-        match hits ready with
-        | [] => iterate fuel {| ls_cs := cs1; ls_next := map mk_task ready; ls_gs := gs0 |} env []
-        | hb => (match plain_interrupt cs1 gs0 ready hb [] with
-                 | Interrupted i c => OInterrupted i c | _ => OFailed eChan end, [], env)
-        end
+  (* before the F-C05 repair createTasks forwarded the run's checkpoint to every task it created:
+     every task created in a resumed run was handed the nested checkpoint stored under its key *)
+  Definition retag (subs : list (N * SCP)) (s : lstate) : lstate :=
+    {| ls_cs := ls_cs s;
+       ls_next := map (fun t => {| t_key := t_key t; t_in := t_in t; t_skip := t_skip t;
+                                   t_cp := nlist_get (t_key t) subs |}) (ls_next s);
+       ls_gs := ls_gs s |}.
+
+  Fixpoint iterate_v0 (subs : list (N * SCP)) (fuel : nat) (s : lstate) (env : ENV) (log : list event)
+    : outcome * list event * ENV :=
+    match fuel with
+    | O => (OLimit, log, env)
+    | S f =>
+      match step s env with
+      | (Continue s', evs, env') => iterate_v0 subs f (retag subs s') env' (log ++ evs)
+      | (Done v, evs, env') => (ODone v, log ++ evs, env')
+      | (Interrupted i c, evs, env') => (OInterrupted i c, log ++ evs, env')
+      | (Failed e, evs, env') => (OFailed e, log ++ evs, env')
       end
-    | r => (OFailed (chan_err r), [], env)
     end.
 
-  (* before the F-C06 repair the initial task set was submitted untested *)
-  Definition start_v0 (fuel : nat) (cs0 : CS) (gs0 : GS) (x : V) (env : ENV) : outcome * list event * ENV :=
+  Definition resume_v0 (fuel : nat) (sm : GS -> GS) (c : checkpoint) (env : ENV) : outcome * list event * ENV :=
+    let s := restore c in iterate_v0 (cp_subs c) fuel (with_gs s (sm (ls_gs s))) env [].
+
+  Definition out_of (r : sres) : outcome :=
+    match r with
+    | Done v => ODone v | Interrupted i c => OInterrupted i c | Failed e => OFailed e
+    | Continue _ => OFailed eChan
+    end.
+
+  (* ---------- a fresh segment: the initial task set is computed from START ---------- *)
+  (* [init]: Continue s = enter the loop at s; anything else ends the call before the loop.
+     [v0 = true]: before the F-C06 repair the initial task set was submitted untested. *)
+  Definition init_gen (v0 : bool) (cs0 : CS) (gs0 : GS) (x : V) : sres :=
     match calc cs0 [(kStart, x)] with
     | Ok (cs1, ready) =>
       match nlist_get kEnd ready with
-      | Some v => (ODone v, [], env)
-      | None => iterate fuel {| ls_cs := cs1; ls_next := map mk_task ready; ls_gs := gs0 |} env []
+      | Some v => Done v
+      | None =>
+        if v0 || is_nil (hits ready)
+        then Continue {| ls_cs := cs1; ls_next := map mk_task ready; ls_gs := gs0 |}
+        else plain_interrupt cs1 gs0 ready (hits ready) []
       end
-    | r => (OFailed (chan_err r), [], env)
+    | r => Failed (chan_err r)
     end.
+  Definition init := init_gen false.
+  Definition init_v0 := init_gen true.
+
+  Definition start_gen (v0 : bool) (fuel : nat) (cs0 : CS) (gs0 : GS) (x : V) (env : ENV) : outcome * list event * ENV :=
+    match init_gen v0 cs0 gs0 x with
+    | Continue s => iterate fuel s env []
+    | r => (out_of r, [], env)
+    end.
+  Definition start := start_gen false.
+  Definition start_v0 := start_gen true.
 
   (* ---------- eager mode (Workflow): taskManager.wait returns ONE completed task ----------
      Tasks are executed when submitted (their events are logged then); [es_running] holds the
@@ -287,64 +320,60 @@ Section Loop.
       end
     end.
 
-  (* [v0 = true]: the code before the F-C05c repair (the completed task is resolved a second time,
+  (* what the loop does with the one collected result [c] while [rest] are still running.
+     [v0 = true]: the code before the F-C05c repair (the completed task is resolved a second time,
      the tasks created from it are dropped, interrupt-before nodes are not reported) *)
+  Definition edecide (v0 : bool) (cs : CS) (gs1 : GS) (c : N * texec) (rest : list (N * texec)) (sched' : list N) : eres :=
+    match first_fail [c] with
+    | Some e => EStop (Failed e)
+    | None =>
+      if negb (is_nil (subcps [c]) && is_nil (reruns [c])) then
+        (* waitAll, then handleInterruptWithSubGraphAndRerunNodes on everything *)
+        match first_fail rest with
+        | Some e => EStop (Failed e)
+        | None => EStop (rerun_interrupt cs gs1 (c :: rest) (outs (c :: rest)) [] [] (afters (c :: rest)))
+        end
+      else
+        match calc cs (outs [c]) with
+        | Ok (cs2, ready) =>
+          match nlist_get kEnd ready with
+          | Some v => EStop (Done v)
+          | None =>
+            if is_nil (hits ready) && is_nil (afters [c]) then
+              EContinue {| es_cs := cs2; es_next := map mk_task ready; es_gs := gs1; es_running := rest |} sched'
+            else
+              match first_fail rest with
+              | Some e => EStop (Failed e)
+              | None =>
+                let ha := afters [c] ++ afters rest in
+                if negb (is_nil (subcps rest) && is_nil (reruns rest)) then
+                  if v0 then EStop (rerun_interrupt cs2 gs1 (c :: rest) (outs (c :: rest)) [] [] ha)
+                  else EStop (rerun_interrupt cs2 gs1 rest (outs rest) ready (hits ready) ha)
+                else
+                  match calc cs2 (outs rest) with
+                  | Ok (cs4, ready2) =>
+                    match nlist_get kEnd ready2 with
+                    | Some v => EStop (Done v)
+                    | None => EStop (plain_interrupt cs4 gs1 (ready ++ ready2) (hits ready ++ hits ready2) ha)
+                    end
+                  | r => EStop (Failed (chan_err r))
+                  end
+              end
+          end
+        | r => EStop (Failed (chan_err r))
+        end
+    end.
+
   Definition estep_gen (v0 : bool) (s : estate) (sched : list N) (env : ENV) : eres * list event * ENV :=
     let '(ts, gs1) := run_pres (es_next s) (es_gs s) in
     let '(rs, env1) := exec_all ts env in
-    let evs := events_of ts rs in
-    match pick (es_running s ++ rs) sched with
-    | None => (EStop (Failed eNoTasks), evs, env1)
-    | Some (c, rest, sched') =>
-      match first_fail [c] with
-      | Some e => (EStop (Failed e), evs, env1)
-      | None =>
-        if negb (is_nil (subcps [c]) && is_nil (reruns [c])) then
-          (* waitAll, then handleInterruptWithSubGraphAndRerunNodes on everything *)
-          match first_fail rest with
-          | Some e => (EStop (Failed e), evs, env1)
-          | None => (EStop (rerun_interrupt (es_cs s) gs1 (c :: rest) (outs (c :: rest)) [] [] (afters (c :: rest))), evs, env1)
-          end
-        else
-          match calc (es_cs s) (outs [c]) with
-          | Ok (cs2, ready) =>
-            match nlist_get kEnd ready with
-            | Some v => (EStop (Done v), evs, env1)
-            | None =>
-              if is_nil (hits ready) && is_nil (afters [c]) then
-                (EContinue {| es_cs := cs2; es_next := map mk_task ready; es_gs := gs1; es_running := rest |} sched', evs, env1)
-              else
-                match first_fail rest with
-                | Some e => (EStop (Failed e), evs, env1)
-                | None =>
-                  let ha := afters [c] ++ afters rest in
-                  if negb (is_nil (subcps rest) && is_nil (reruns rest)) then
-                    if v0 then (EStop (rerun_interrupt cs2 gs1 (c :: rest) (outs (c :: rest)) [] [] ha), evs, env1)
-                    else (EStop (rerun_interrupt cs2 gs1 rest (outs rest) ready (hits ready) ha), evs, env1)
-                  else
-                    match calc cs2 (outs rest) with
-                    | Ok (cs4, ready2) =>
-                      match nlist_get kEnd ready2 with
-                      | Some v => (EStop (Done v), evs, env1)
-                      | None => (EStop (plain_interrupt cs4 gs1 (ready ++ ready2) (hits ready ++ hits ready2) ha), evs, env1)
-                      end
-                    | r => (EStop (Failed (chan_err r)), evs, env1)
-                    end
-                end
-            end
-          | r => (EStop (Failed (chan_err r)), evs, env1)
-          end
-      end
-    end.
+    (match pick (es_running s ++ rs) sched with
+     | None => EStop (Failed eNoTasks)
+     | Some (c, rest, sched') => edecide v0 (es_cs s) gs1 c rest sched'
+     end, events_of ts rs, env1).
 
   Definition estep := estep_gen false.
   Definition estep_v0 := estep_gen true.
-
-  Definition out_of (r : sres) : outcome :=
-    match r with
-    | Done v => ODone v | Interrupted i c => OInterrupted i c | Failed e => OFailed e
-    | Continue _ => OFailed eChan
-    end.
 
   Fixpoint eiterate (v0 : bool) (fuel : nat) (s : estate) (sched : list N) (env : ENV) (log : list event)
     : outcome * list event * ENV :=
@@ -363,56 +392,55 @@ Section Loop.
   Definition eresume (v0 : bool) (fuel : nat) (sm : GS -> GS) (c : checkpoint) (sched : list N) (env : ENV) :=
     let s := restore c in eiterate v0 fuel (to_estate (with_gs s (sm (ls_gs s)))) sched env [].
 
+  (* [v0] selects the pre-repair [estep]; the initial task set is tested as repaired *)
   Definition estart (v0 : bool) (fuel : nat) (cs0 : CS) (gs0 : GS) (x : V) (sched : list N) (env : ENV)
     : outcome * list event * ENV :=
-    match calc cs0 [(kStart, x)] with
-    | Ok (cs1, ready) =>
-      match nlist_get kEnd ready with
-      | Some v => (ODone v, [], env)
-      | None =>
-        match hits ready with
-        | [] => eiterate v0 fuel {| es_cs := cs1; es_next := map mk_task ready; es_gs := gs0; es_running := [] |} sched env []
-        | hb => (out_of (plain_interrupt cs1 gs0 ready hb []), [], env)
-        end
-      end
-    | r => (OFailed (chan_err r), [], env)
+    match init cs0 gs0 x with
+    | Continue s => eiterate v0 fuel (to_estate s) sched env []
+    | r => (out_of r, [], env)
     end.
 
   (* ---------- driving a run through a store: call, and resume while interrupted ---------- *)
-  (* [mods k] = the state modifier of the k-th resume call. The store keeps only what [ser]
-     produces; [deser] failing is a failed call. *)
+  (* One call is one run segment: [fresh] from the caller's input when there is no checkpoint under the
+     id (or no id was given), [resumed sm c] from the stored checkpoint [c] otherwise. [mods k] = the
+     state modifier of the k-th call, [tick k] = what the options of the k-th call change in the
+     environment. The store keeps only what [ser] produces; [deser] failing is a failed call.
+     A checkpoint is written exactly when the segment ends interrupted and an id was given. *)
   Section Drive.
     Context {B : Type}.
     Variable ser : checkpoint -> B.
     Variable deser : B -> option checkpoint.
-    Variable fuel : nat.                       (* step limit, restarted by every call *)
+    Variable fresh : ENV -> outcome * list event * ENV.
+    Variable resumed : (GS -> GS) -> checkpoint -> ENV -> outcome * list event * ENV.
+    Variable tick : nat -> ENV -> ENV.
 
     Record call_obs := { co_out : outcome; co_log : list event; co_written : bool }.
 
-    (* one call with checkpoint id: runs from the stored checkpoint if there is one *)
-    Definition call_with_id (store : option B) (fresh : ENV -> outcome * list event * ENV)
-               (sm : GS -> GS) (env : ENV) : call_obs * option B * ENV :=
+    Definition call (with_id : bool) (store : option B) (sm : GS -> GS) (env : ENV) : call_obs * option B * ENV :=
       let '(o, l, env') :=
-        match store with
+        match (if with_id then store else None) with
         | None => fresh env
         | Some b => match deser b with
-                    | Some c => resume fuel sm c env
+                    | Some c => resumed sm c env
                     | None => (OFailed eChan, [], env)
                     end
         end in
       match o with
-      | OInterrupted _ c => ({| co_out := o; co_log := l; co_written := true |}, Some (ser c), env')
+      | OInterrupted _ c =>
+          if with_id then ({| co_out := o; co_log := l; co_written := true |}, Some (ser c), env')
+          else ({| co_out := o; co_log := l; co_written := false |}, store, env')
       | _ => ({| co_out := o; co_log := l; co_written := false |}, store, env')
       end.
 
-    (* the whole run: first call, then up to [n] resume calls while the run is interrupted *)
-    Fixpoint drive (n : nat) (k : nat) (mods : nat -> GS -> GS) (store : option B)
-             (fresh : ENV -> outcome * list event * ENV) (env : ENV) : list call_obs * ENV :=
-      let '(co, store', env') := call_with_id store fresh (mods k) env in
-      match co_out co, n with
-      | OInterrupted _ _, S n' =>
-          let '(rest, env'') := drive n' (S k) mods store' fresh env' in (co :: rest, env'')
-      | _, _ => ([co], env')
+    (* the whole run: first call, then up to [n] further calls while the run is interrupted
+       (without an id nothing was stored: the run cannot be resumed) *)
+    Fixpoint drive (with_id : bool) (n : nat) (k : nat) (mods : nat -> GS -> GS) (store : option B) (env : ENV)
+      : list call_obs * ENV :=
+      let '(co, store', env') := call with_id store (mods k) (tick k env) in
+      match co_out co, n, with_id with
+      | OInterrupted _ _, S n', true =>
+          let '(rest, env'') := drive with_id n' (S k) mods store' env' in (co :: rest, env'')
+      | _, _, _ => ([co], env')
       end.
   End Drive.
 End Loop.
